@@ -138,7 +138,12 @@ def rule_hash_int(ctx, repo, eng):
         if isinstance(n, ast.Assign) and n.value is unp[0] and isinstance(n.targets[0], ast.Name):
             tvar = n.targets[0].id
     for lp_ in loops:
-        early = [x for x in ast.walk(lp_) if isinstance(x, (ast.Break, ast.Continue, ast.Return))]
+        early = [x for x in ast.walk(lp_) if isinstance(x, (ast.Break, ast.Return))]
+        skips = [x for x in ast.walk(lp_) if isinstance(x, ast.Continue)]
+        if skips and not early:
+            # skipping a limb is harmless exactly when the limb is zero: not decided here
+            r.undecided('weights:every-limb', common.site_of(fi, skips[0]), 'the loop that combines the limbs skips some iterations with `continue`')
+            return
         if early:
             r.violated('weights:every-limb', common.site_of(fi, early[0]), 'the loop that combines the limbs can leave or skip with `%s`: limbs above (or at) that point do not contribute, and a hash '
                        'with a zero word below a non-zero one is read as a smaller number' % norm(early[0]), sure=True)
